@@ -75,37 +75,45 @@ Qed.
 
 (* ---------- check_dirs ---------- *)
 Lemma check_dirs_ok f : forall rest acc,
-  (forall q r, q <> [] -> r <> [] -> rest = q ++ r ->
-     is_link (fs_lookup f (acc ++ q)) = false /\ is_file (fs_lookup f (acc ++ q)) = false) ->
+  (forall q r, q <> [] -> r <> [] -> rest = q ++ r -> is_link (fs_lookup f (acc ++ q)) = false) ->
   check_dirs f acc rest = true.
 Proof.
   induction rest as [|x rest IH]; intros acc Hc; simpl; [reflexivity|].
   destruct rest as [|y rest']; [reflexivity|].
-  destruct (Hc [x] (y :: rest')) as [Hl Hf]; [discriminate|discriminate|reflexivity|].
-  rewrite Hl, Hf. simpl.
-  replace (match rest' with [] => true | _ :: _ => true end) with true by (destruct rest'; reflexivity).
-  simpl. apply IH. intros q r Hq Hr E.
+  rewrite (Hc [x] (y :: rest')); [|discriminate|discriminate|reflexivity]. simpl.
+  apply IH. intros q r Hq Hr E.
   rewrite <- app_assoc. apply (Hc (x :: q) r); [discriminate|exact Hr|]. simpl. now rewrite E.
 Qed.
+
+(* a directory made by mkdir(2) with a mode masked by 01777 is not set-group-ID by itself *)
+Lemma no_sgid_masked y u : N.land (N.ldiff (N.land y 1023) u) sgid = 0.
+Proof.
+  apply N.bits_inj. intro i. rewrite N.land_spec, N.ldiff_spec, N.land_spec, N.bits_0.
+  destruct (N.eq_dec i 10) as [->|Hi].
+  - change (N.testbit 1023 10) with false. now rewrite andb_false_r.
+  - unfold sgid. change 1024 with (2 ^ 10). rewrite (N.pow2_bits_false 10 i) by (intro E; now subst).
+    apply andb_false_r.
+Qed.
+
+Lemma create_dir_no_sgid umask m : N.land (create_mode dir_create_bits umask m) sgid = 0.
+Proof. apply no_sgid_masked. Qed.
 
 Section RoundTrip.
   Variables (pre : path) (umask : N) (preserve repro : bool) (isl isf : path -> bool).
 
   Definition links_sound (f : fs) : Prop :=
     (forall p tg, fs_lookup f p = Some (NLink tg) -> isl p = true) /\
-    (forall p c m, fs_lookup f p = Some (NFile c m) -> isf p = true).
+    (forall p c m, fs_lookup f p = Some (NFile c m) -> isf p = true) /\
+    (forall p m, fs_lookup f p = Some (NDir m) -> N.land m sgid = 0).
 
   Lemma check_dirs_clear f : links_sound f -> forall rest acc,
     prefixes_clear isl isf acc rest = true -> check_dirs f acc rest = true.
   Proof.
-    intros [Hs Hf]. induction rest as [|x rest IH]; intros acc Hc; simpl in *; [reflexivity|].
+    intros (Hs & Hf & _). induction rest as [|x rest IH]; intros acc Hc; simpl in *; [reflexivity|].
     destruct rest as [|y rest']; [reflexivity|].
-    apply andb_true_iff in Hc as [H1 H3]. apply andb_true_iff in H1 as [H1 H2].
-    rewrite (IH _ H3), andb_true_r.
-    destruct (fs_lookup f (acc ++ [x])) as [[c m|m|tg]|] eqn:E; simpl;
-      try (destruct rest'; reflexivity).
-    - destruct rest'; [reflexivity|]. apply Hf in E. rewrite E in H2. discriminate.
-    - apply Hs in E. rewrite E in H1. discriminate.
+    apply andb_true_iff in Hc as [H1 H2]. rewrite (IH _ H2), andb_true_r.
+    destruct (fs_lookup f (acc ++ [x])) as [[c m|m|tg]|] eqn:E; try reflexivity.
+    apply Hs in E. rewrite E in H1. discriminate.
   Qed.
 
   (* ---------- modes ---------- *)
@@ -127,14 +135,16 @@ Section RoundTrip.
 
   Lemma mkdir_all_fresh m f rel m' :
     rel <> [] -> fs_lookup f rel = None -> fs_lookup f (parent rel) = Some (NDir m') ->
+    N.land m' sgid = 0 ->
     mkdir_all umask m f (rev rel) = Ok (fs_set f rel (NDir (create_mode dir_create_bits umask m))).
   Proof.
-    intros Hne Hn Hp. unfold parent in Hp.
+    intros Hne Hn Hp Hsg. unfold parent in Hp.
     destruct (exists_last Hne) as (r0 & x & E). subst rel.
     rewrite removelast_last in Hp.
     rewrite rev_app_distr. simpl.
     rewrite rev_involutive, Hn.
     rewrite (mkdir_all_existing m f (rev r0) m') by (now rewrite rev_involutive).
+    unfold inherited_sgid. rewrite ?rev_involutive, Hp, Hsg, N.lor_0_r.
     reflexivity.
   Qed.
 
@@ -161,7 +171,7 @@ Section RoundTrip.
     check_dirs f [] rel = true.
   Proof.
     intro Hd. apply check_dirs_ok. intros q r _ Hr E. simpl.
-    destruct (Hd q r Hr E) as [m ->]. split; reflexivity.
+    destruct (Hd q r Hr E) as [m ->]. reflexivity.
   Qed.
 
   (* ---------- expected ---------- *)
@@ -275,12 +285,14 @@ Section RoundTrip.
           destruct preserve; repeat rewrite lookup_set_other by assumption; apply Hfresh.
       + intros q Hq. assert (rel <> q). { intro E. apply (Hq []). now rewrite app_nil_r. }
         destruct preserve; repeat rewrite lookup_set_other by assumption; reflexivity.
-      + simpl in Hbe. destruct Hls as [Hl1 Hl2]. split.
+      + simpl in Hbe. destruct Hls as (Hl1 & Hl2 & Hl3). split; [|split].
         * intros p tg. destruct preserve; repeat rewrite lookup_set;
             destruct (path_eqb rel p); try discriminate; apply Hl1.
         * intros p c' m'. destruct preserve; repeat rewrite lookup_set;
             destruct (path_eqb rel p) eqn:E; try apply Hl2;
             apply path_eqb_spec in E; subst p; intros _; exact Hbe.
+        * intros p m'. destruct preserve; repeat rewrite lookup_set;
+            destruct (path_eqb rel p); try discriminate; apply Hl3.
     - (* symlink *)
       simpl in Hbe.
       apply andb_true_iff in Hbe as [Hbe Hq]. apply andb_true_iff in Hbe as [Hbe _].
@@ -300,31 +312,35 @@ Section RoundTrip.
           unfold expected_mid. simpl. apply Hfresh.
       + intros q Hq'. rewrite lookup_set_other; [reflexivity|].
         intro E. apply (Hq' []). now rewrite app_nil_r.
-      + destruct Hls as [Hl1 Hl2]. split.
+      + destruct Hls as (Hl1 & Hl2 & Hl3). split; [|split].
         * intros p tg'. rewrite lookup_set. destruct (path_eqb rel p) eqn:E.
           -- apply path_eqb_spec in E. subst p. intros _. exact Hisl.
           -- apply Hl1.
         * intros p c' m'. rewrite lookup_set. destruct (path_eqb rel p); [discriminate|apply Hl2].
+        * intros p m'. rewrite lookup_set. destruct (path_eqb rel p); [discriminate|apply Hl3].
     - (* directory *)
       simpl in Hwf, Hmo, Hbe.
-      apply andb_true_iff in Hwf as [Hnd Hwf]. apply andb_true_iff in Hmo as [Hm Hmo].
+      apply andb_true_iff in Hwf as [Hnd Hwf]. apply andb_true_iff in Hnd as [Hnd Hnok]. apply andb_true_iff in Hmo as [Hm Hmo].
       assert (Hrel : fs_lookup f rel = None) by (rewrite <- (app_nil_r rel); apply Hfresh).
       destruct (parent_is_dir_ok f rel Hne Hpre) as [mp Hpar].
       set (f2 := fs_set f rel (NDir (mid_dir_mode umask m))).
       assert (Hstep : extract_entry pre umask preserve f (mkEntry (pre ++ rel) EDir m (hdr_time repro mt)) = Ok f2).
       { unfold extract_entry. simpl.
         rewrite strip_prefix_app, (check_dirs_prefix_dirs f rel Hpre). simpl.
-        rewrite (mkdir_all_fresh (N.lor m owner_rwx) f rel mp Hne Hrel Hpar). reflexivity. }
+        rewrite (mkdir_all_fresh (N.lor m owner_rwx) f rel mp Hne Hrel Hpar); [reflexivity|].
+        destruct Hls as (_ & _ & Hl3). exact (Hl3 _ _ Hpar). }
       assert (H2rel : fs_lookup f2 rel = Some (NDir (mid_dir_mode umask m))).
       { unfold f2. rewrite lookup_set_same. reflexivity. }
       assert (H2other : forall q, rel <> q -> fs_lookup f2 q = fs_lookup f q).
       { intros q Hq. unfold f2. rewrite lookup_set_other by exact Hq. reflexivity. }
       assert (H2ls : links_sound f2).
-      { destruct Hls as [Hl1 Hl2]. split.
+      { destruct Hls as (Hl1 & Hl2 & Hl3). split; [|split].
         - intros p tg. unfold f2. rewrite lookup_set;
             destruct (path_eqb rel p); try discriminate; apply Hl1.
         - intros p c' m'. unfold f2. rewrite lookup_set;
-            destruct (path_eqb rel p); try discriminate; apply Hl2. }
+            destruct (path_eqb rel p); try discriminate; apply Hl2.
+        - intros p m'. unfold f2. rewrite lookup_set. destruct (path_eqb rel p); [|apply Hl3].
+          intro E. injection E as <-. apply create_dir_no_sgid. }
       destruct (children_ok rel ch IHch f2 (mid_dir_mode umask m)) as (g' & E' & L' & F' & S'); auto.
       + intros q r Hr E. rewrite H2other; [eapply Hpre; eauto|].
         subst rel. intro E. symmetry in E. revert E. now apply app_neq_longer.
@@ -349,7 +365,7 @@ Section RoundTrip.
       forall p, fs_lookup f' p = expected_mid_top umask preserve T p.
   Proof.
     intros T Hwf Hmo Hbe Hls0. subst T. simpl in Hwf, Hmo, Hbe.
-    apply andb_true_iff in Hwf as [Hnd Hwf]. apply andb_true_iff in Hmo as [Hm Hmo].
+    apply andb_true_iff in Hwf as [Hnd Hwf]. apply andb_true_iff in Hnd as [Hnd Hnok]. apply andb_true_iff in Hmo as [Hm Hmo].
     set (f0 := fs_init umask).
     set (md := N.ldiff 511 umask).
     assert (Hstep : extract_entry pre umask preserve f0 (mkEntry (pre ++ []) EDir m (hdr_time repro mt)) = Ok f0).
@@ -384,7 +400,8 @@ Theorem extract_list_mid pre umask preserve repro T :
 Proof.
   intros Hd Hwf Hmo Hbe. destruct T as [| |m mt ch]; try discriminate.
   apply (extract_list_entries pre umask preserve repro (links_of (Dir m mt ch)) (files_of (Dir m mt ch)) m mt ch Hwf Hmo Hbe).
-  split; [intros p tg E|intros p c' m' E]; unfold fs_init in E; destruct p; simpl in E; discriminate.
+  split; [intros p tg E|split; [intros p c' m' E|intros p m' E]]; unfold fs_init in E; destruct p; simpl in E;
+    try discriminate. injection E as <-. apply create_dir_no_sgid.
 Qed.
 
 (* ---------- reproducible tars ---------- *)
@@ -498,6 +515,16 @@ Section Codec.
     = Ok (NFile content (N.ldiff 438 umask)).
   Proof.
     unfold push_file, file_descriptor. simpl. rewrite digest_eqb_refl, N.eqb_refl. reflexivity.
+  Qed.
+
+  (* the descriptor of a plain file has no mode: a 0755 file comes back 0644 under umask 022 *)
+  Theorem plain_file_mode_refuted nm content :
+    exists m m', m <= 511 /\
+      push_file digest H digest_eqb 18 (file_descriptor digest H nm content) content = Ok (NFile content m') /\
+      m' <> N.ldiff m 18.
+  Proof.
+    exists 493, (N.ldiff 438 18). split; [vm_compute; discriminate|]. split; [apply file_roundtrip|].
+    vm_compute. discriminate.
   Qed.
 
   Theorem file_push_verified umask d blob n :
